@@ -26,7 +26,7 @@ def reexec():
     if os.path.realpath(sys.executable) != os.path.realpath(VENV_PY) or any(os.environ.get(k) != v for k, v in want_env.items()):
         env = dict(os.environ, **want_env)
         env["VERIF_ENV_LINE_LENGTH"] = env.pop("DOCTRANS_LINE_LENGTH", env.get("VERIF_ENV_LINE_LENGTH", ""))
-        os.execve(VENV_PY, [VENV_PY, os.path.abspath(__file__)] + sys.argv[1:], env)
+        os.execve(VENV_PY, [VENV_PY, os.path.abspath(sys.argv[0])] + sys.argv[1:], env)
 
 
 def parse_known_findings():
